@@ -3,7 +3,7 @@ import itertools
 import math
 import random
 
-RULE = ("cloud cases: 2-200 atoms of elements C,N,O,S,H,F,Cl,P,Zn on the 0.001 A lattice, densities "
+RULE = ("cloud cases: 2-200 atoms of elements C,N,O,S,H,F,Cl,P,Zn,Se,Si,Sr,Br,Na,Fe on the 0.001 A lattice, densities "
         "0.01-8 atoms/A^3, origins 0 / negative / multiples of the 2.51 A cell / near the field "
         "limit; directed cases: for one of the 26 neighbour directions, pairs straddling a cell "
         "face/edge/corner at threshold +- {0.001..0.01} A for H-X, X-Y and S-S, atom 1 at "
@@ -20,7 +20,7 @@ ASSUMPTIONS = ["pairs with |d^2 - t^2| < 1e-9 are ties and not judged, unless al
                "criterion decides (no bond at exactly 1.5 / 2.0 / 2.5 A)",
                "elements Hg/Ho/He... (symbol starting with H) are not judged: the rule's text does not say "
                "whether they count as hydrogen"]
-ELEMS = ["C", "N", "O", "S", "H", "F", "Cl", "P", "Zn"]
+ELEMS = ["C", "N", "O", "S", "H", "F", "Cl", "P", "Zn", "Se", "Si", "Sr", "Br", "Na", "Fe"]
 BOX = 2510
 DIRS = [d for d in itertools.product((-1, 0, 1), repeat=3) if any(d)]
 TIMEOUT = {"quick": 1200, "thorough": 7200}
@@ -93,7 +93,7 @@ def cloud(rng):
     else:
         o = (-side // 2, BOX * 3 - side // 2, -rng.randrange(0, 3000))
     mix = rng.choice(("all", "organic", "sulfur", "hydrogen"))
-    elems = {"all": ELEMS, "organic": ["C", "C", "N", "O", "H", "H"], "sulfur": ["S", "S", "C", "H"],
+    elems = {"all": ELEMS, "organic": ["C", "C", "N", "O", "H", "H"], "sulfur": ["S", "S", "C", "H", "Se", "Si"],
              "hydrogen": ["H", "H", "H", "O"]}[mix]
     atoms = []
     for i in range(n):
@@ -108,7 +108,9 @@ def directed(rng, d):
     m = sum(1 for c in d if c)
     slot = 0
     for (e1, e2, t) in (("H", "C", 1500), ("N", "H", 1500), ("C", "O", 2000), ("S", "C", 2000),
-                        ("S", "S", 2500), ("Zn", "O", 2000), ("H", "H", 1400)):
+                        ("S", "S", 2500), ("Zn", "O", 2000), ("H", "H", 1400),
+                        # elements whose symbol merely starts like sulfur's: the 2.5 A rule is for S-S only
+                        ("Se", "S", 2000), ("Se", "Se", 2000), ("Si", "S", 2000), ("Sr", "S", 2000)):
         for delta in (-10, -3, -1, 0, 1, 3, 10):
             for eps in (0, 1, 50, 300):
                 for base in ("neg", "zero", "pos", "far"):
